@@ -49,9 +49,11 @@ func BuildChangeMap(commits []CommitMessage) map[string]map[string]int {
 
 				for _, change := range commit.Changes {
 					file := change.File
-					file, oldFile, newFile := UpdateMessageForChange(file)
-					if file != oldFile {
-						file = newFile
+					if complexMoveReg.MatchString(file) {
+						file, _, _ = UpdateMessageForChange(file)
+					} else if moved := basicMvReg.FindStringSubmatch(file); len(moved) == 3 {
+						// full-path rename `old => new`, as in BuildCommitMessageMap
+						file = moved[2]
 					}
 
 					czMap[keyword][file]++
